@@ -421,4 +421,94 @@ def eagerOps : List COp → List Op
   | .eager op :: os => op :: eagerOps os
   | .ccall :: os => eagerOps os
 
+/-! ## the values returned by the calls of a history on ONE object  (strengthening round, seed C07-10)
+
+  Every `__call__` of every knob-bearing class runs the `if not self.built: self.build(...)` prologue
+  and then evaluates its return expression with `self.qnoise_factor` AS IT IS NOW: nothing derived
+  from the factor (a "this quantizer is the identity" flag, a pre-computed `1 - f`, a cached
+  branch) is kept on the object between calls.  `QState.outs` spells that out: the list of the
+  values returned by the `call` operations of an operation list, in order.  `callFactors` is the
+  property's own reading of the same list — the factor in force at each call is the last value
+  written before it — and does not look at the object at all. -/
+
+/-- which return expression the class evaluates -/
+inductive Form where
+  /-- quantized_bits / quantized_relu / quantized_po2 / quantized_relu_po2 / quantized_hswish -/
+  | two (useSte : Bool)
+  /-- quantized_linear -/
+  | linear
+deriving Repr, DecidableEq, Inhabited
+
+/-- the return expression over the rationals -/
+def Form.out (s q f : Rat) : Form → Rat
+  | .two u => mix s q f u
+  | .linear => mixLinear s q f
+
+/-- the float32 evaluation of the return expression with the factor storage `st` -/
+def Form.outF (rd : Rnd) (s q : Rat) (st : Store) : Form → Rat
+  | .two u => mixF rd s q st u
+  | .linear => mixLinearF rd s q st
+
+/-- the values returned by the `call`s of an operation list on one object (surrogate `s`,
+    quantized value `q` of the probe input): a call runs the prologue (`QState.step … .call`) and
+    evaluates the return expression with the store it finds -/
+def QState.outs (rd : Rnd) (fm : Form) (s q : Rat) (st : QState) : List Op → List Rat
+  | [] => []
+  | op :: ops =>
+    (if op = .call then [fm.outF rd s q (st.step rd op).1.store] else [])
+      ++ QState.outs rd fm s q (st.step rd op).1 ops
+
+/-- the property's reading: the effective factor in force at every `call` of the list = float32 of
+    the last value written before it (`cur` = the factor in force at the start) -/
+def callFactors (r32 : Rat → Rat) (cur : Rat) : List Op → List Rat
+  | [] => []
+  | .update v :: ops => callFactors r32 (r32 v) ops
+  | .updateFromVar v :: ops => callFactors r32 (r32 v) ops
+  | .call :: ops => cur :: callFactors r32 cur ops
+  | _ :: ops => callFactors r32 cur ops
+
+/-- a shortcut taken AT CALL TIME (sound, see `C07_call_time_shortcut_sound`): "if the factor is 0
+    right now, return the surrogate without quantizing" -/
+def QState.outsShortcut (rd : Rnd) (fm : Form) (s q : Rat) (st : QState) : List Op → List Rat
+  | [] => []
+  | op :: ops =>
+    (if op = .call then
+        [if (st.step rd op).1.store.raw = 0 then s else fm.outF rd s q (st.step rd op).1.store]
+      else [])
+      ++ QState.outsShortcut rd fm s q (st.step rd op).1 ops
+
+/-- NOT the code: an object that takes such a decision ONCE, whenever it is built (`build`, or the
+    prologue of the first call), from the factor storage it has at that moment (`test`), caches it
+    (`flag`) and from then on returns `fast` whenever the cached flag is set.  Kept for the
+    counterexamples: decisions derived from the factor may not outlive the call. -/
+structure Snap where
+  st : QState
+  flag : Bool
+deriving Repr, DecidableEq, Inhabited
+
+/-- does the operation run `build` -/
+def QState.runsBuild (s : QState) : Op → Bool
+  | .build _ => true
+  | .call => !s.built
+  | _ => false
+
+def Snap.step (rd : Rnd) (test : Store → Bool) (c : Snap) (op : Op) : Snap :=
+  { st := (c.st.step rd op).1,
+    flag := if c.st.runsBuild op then test (c.st.step rd op).1.store else c.flag }
+
+def Snap.outs (rd : Rnd) (fm : Form) (s q : Rat) (test : Store → Bool) (fast : Rat) (c : Snap) :
+    List Op → List Rat
+  | [] => []
+  | op :: ops =>
+    (if op = .call then
+        [if (c.step rd test op).flag then fast else fm.outF rd s q (c.step rd test op).st.store]
+      else [])
+      ++ Snap.outs rd fm s q test fast (c.step rd test op) ops
+
+/-- "a constant (python-number) factor of exactly 0": the test of the identity fast path -/
+def Store.isConstZero (st : Store) : Bool := !st.isVar && decide (st.raw = 0)
+
+/-- "a constant (python-number) factor of exactly 1": the twin test (skip the mix, return `xq`) -/
+def Store.isConstOne (st : Store) : Bool := !st.isVar && decide (st.raw = 1)
+
 end QKV.QNoise
